@@ -34,7 +34,7 @@ func RunC08(tier string) int {
 	n := tierN(tier, 32, 320)
 	kinds := []string{"mirror", "mirror", "local-first", "put-fault-then-retry", "b-get-5xx", "b-get-404", "b-get-truncated", "a-put-dropped", "b-head-5xx", "a-put-5xx-target",
 		"a-head-403", "a-head-5xx", "blobs-expired-then-B-then-C", "blobs-expired-then-B-then-C",
-		"b-restores-over-older-outputs", "b-restores-over-older-outputs", "a-record-replaced", "a-record-replaced"}
+		"b-restores-over-older-outputs", "b-restores-over-older-outputs", "a-record-replaced", "a-record-replaced", "records-expired-then-A-rebuilds-tainted", "records-expired-then-A-rebuilds-tainted"}
 	e1.Parallel(n, func(i int) {
 		r := rng.Derive(uint64(run.Seed), "C08", fmt.Sprint(i))
 		kind := kinds[i%len(kinds)]
@@ -238,6 +238,47 @@ func RunC08(tier string) int {
 				if !auditRemote("after A's second build") {
 					return
 				}
+			}
+		}
+		if kind == "records-expired-then-A-rebuilds-tainted" {
+			// the store loses A's target results (a lifecycle rule on that prefix; the blobs stay),
+			// A taints everything and builds again: every target re-executes, reproduces its outputs
+			// and writes its result - which must reach the store again although A's local cache
+			// still holds an identical record
+			gone := fs3.ExpireRecords("/target/")
+			env.Logf("remote lifecycle rule expired %d target result(s)", len(gone))
+			if res := env.RunTaint([]string{"//..."}); res.Exit != 0 {
+				run.Count("record_expiry_cases_abandoned(grog taint refused)", 1)
+				return
+			}
+			for _, t := range env.Spec.Targets {
+				env.Taint[t.Label()] = true
+			}
+			_, obsT, ok := step("A-rebuilds-tainted", e1.BuildOpts{}, safety, true)
+			if !ok {
+				return
+			}
+			// every record in the store now was written by this build (all were expired before it):
+			// one per target that executed and completed (records of older states are not rewritten)
+			back := 0
+			for k := range fs3.Store(bucketPrefix) {
+				if strings.HasPrefix(k, "target/") {
+					back++
+				}
+			}
+			executed := 0
+			for l, c := range obsT.Ended {
+				if c > 0 && obsT.Failed[l] == 0 {
+					executed++
+				}
+			}
+			run.Count("expired_records_rewritten_by_the_rebuild", back)
+			if obsT.Res.Exit == 0 && back < executed {
+				viol("result-not-in-the-store-after-a-successful-build scenario="+kind, fmt.Sprintf("the store lost all %d target results; A re-executed %d targets (tainted) and exited 0, but only %d results are in the store afterwards", len(gone), executed, back), obsT)
+				return
+			}
+			if !auditRemote("after A's tainted rebuild") {
+				return
 			}
 		}
 		memoA := map[string]string{}
